@@ -37,7 +37,7 @@ def replay(r):
     cases = []
     if r.get("x"):
         cases.append((r["x"], r["refs"]))
-    for _ in range(12):
+    for _ in range(30):
         cases.append(([rnd.choice(seqs) for _ in range(r.get("B", 1))], [[rnd.choice(seqs) for _ in range(ns)] for _ in range(r.get("B", 1))]))
     for act in acts:
         model = dl.real_model(arch, A, L, seed=r.get("seed", 1), act_override=act)
@@ -47,8 +47,11 @@ def replay(r):
             with warnings.catch_warnings(record=True) as wlist:
                 warnings.simplefilter("always")
                 try:
-                    mult = deep_lift_shap(model, X, references=R, target=target, device="cpu", raw_outputs=True)
-                    attr = deep_lift_shap(model, X, references=R, target=target, device="cpu")
+                    extra = {"n_shuffles": r["n_shuffles_arg"]} if r.get("n_shuffles_arg") else {}
+                    mult = deep_lift_shap(model, X, references=R, target=target, device="cpu", raw_outputs=True, **extra)
+                    attr = deep_lift_shap(model, X, references=R, target=target, device="cpu", **extra)
+                    if tuple(mult.shape[:2]) != (len(x), len(refs[0])):
+                        return True, "raw multipliers have shape %s for %d references per example" % (tuple(mult.shape), len(refs[0]))
                 except Exception as e:
                     return True, "deep_lift_shap raised %s: %s" % (type(e).__name__, e)
             if any("Convergence" in str(w.message) for w in wlist):
@@ -122,7 +125,8 @@ def worker(cfg):
             ix = np.array([[core.Real("ix_%d_%d" % (c, p)) for p in range(Lp)] for c in range(Cc)], dtype=object)
             ir = np.array([[core.Real("ir_%d_%d" % (c, p)) for p in range(Lp)] for c in range(Cc)], dtype=object)
             inp = T.Tensor(np.stack([ix, ir]), dtype="float32")
-            mod = NN.MaxPool1d(K)
+            mod = NN.MaxPool1d(K, stride=cfg.get("stride"), padding=cfg.get("padding", 0))
+            S_, P_ = (cfg.get("stride") or K), cfg.get("padding", 0)
             old = T.GRAD_ENABLED[0]
             T.GRAD_ENABLED[0] = False
             outp = mod(inp)                                   # arg-max positions of both halves are decided by forking
@@ -142,7 +146,7 @@ def worker(cfg):
             claims = []
             for c in range(Cc):
                 for t in range(Lo):
-                    win = range(t * K, t * K + K)
+                    win = [p for p in range(t * S_ - P_, t * S_ - P_ + K) if 0 <= p < Lp]
                     lhs = s_sum([ite(ix[c, p] - ir[c, p] == 0, 0, new.a[0, c, p] * (ix[c, p] - ir[c, p])) for p in win])
                     claims.append(lhs == g[c, t] * (outp.a[0, c, t] - outp.a[1, c, t]))
             for c in range(Cc):
@@ -153,7 +157,7 @@ def worker(cfg):
             m, unk = dl.split_prove(ctx, claims, "_maxpool rule lemma")
             out["unknown"] += unk
             if m is not None:
-                add("rule:maxpool", "_maxpool does not distribute grad_out * delta_out over the pooling window", dict(cfg, arch="convmax", A=2, L=5, target=1))
+                add("rule:maxpool", "_maxpool does not distribute grad_out * delta_out over the pooling window", dict(cfg, arch="convmaxpad" if cfg.get("padding") else "convmax", A=2, L=4 if cfg.get("padding") else 5, target=1, B=2, ns=2))
             return "returned"
         core.explore(body, stats=stats, max_paths=5000)
 
@@ -165,9 +169,14 @@ def worker(cfg):
             xc, X, rc, R = dl.sym_inputs(ctx, A, L, B, ns)
             rp = lambda m: dict(cfg, x=C.eval_chars(m, xc), refs=C.eval_chars(m, rc))
             try:
-                mult = dls.deep_lift_shap(net, X, references=R, target=target, batch_size=cfg.get("batch_size", 32), device="cpu", raw_outputs=True)
+                extra = {"n_shuffles": cfg["n_shuffles_arg"]} if cfg.get("n_shuffles_arg") else {}      # ignored for a reference tensor
+                mult = dls.deep_lift_shap(net, X, references=R, target=target, batch_size=cfg.get("batch_size", 32), device="cpu", raw_outputs=True, **extra)
                 deferred = list(ctx.state.get("deferred_any", []))
-                attr = dls.deep_lift_shap(net, X, references=R, target=target, batch_size=cfg.get("batch_size", 32), device="cpu")
+                attr = dls.deep_lift_shap(net, X, references=R, target=target, batch_size=cfg.get("batch_size", 32), device="cpu", **extra)
+                if tuple(mult.shape) != (B, ns, A, L):
+                    m = ctx.model() if ctx.check() == z3.sat else None
+                    add("dls:reference-count", "raw output has shape %s for %d references per example" % (tuple(mult.shape), ns), rp(m))
+                    return "returned"
             except Exception as e:
                 if isinstance(e, core.Inconclusive):
                     raise
@@ -243,7 +252,8 @@ def _band_maxnet(net, x, ref):
 
 def configs(tier):
     q = tier == "quick"
-    cf = [dict(kind="lemma_nonlinear", n=2), dict(kind="lemma_maxpool", C=1, L=4, K=2),
+    cf = [dict(kind="lemma_nonlinear", n=2), dict(kind="lemma_maxpool", C=1, L=4, K=2), dict(kind="lemma_maxpool", C=1, L=3, K=3, padding=1),
+          dict(kind="e2e", arch="dense1", A=2, L=2, B=1, ns=2, target=0, n_shuffles_arg=1),
           dict(kind="e2e", arch="dense1", A=2, L=2, B=1, ns=2, target=1), dict(kind="e2e", arch="affine", A=2, L=3, B=2, ns=2, target=0, batch_size=3),
           dict(kind="e2e", arch="conv", A=2, L=2, B=1, ns=1, target=0)]
     # every element-wise activation class registered in _NON_LINEAR_OPS, each through a minimal network: a mis-registered
